@@ -1034,8 +1034,10 @@ def common_meta(ctx):
         "but not derived: theorem C08_merge_irrelevant shows the report is the same for every interleaving",
         "the Size column and the key `size` are judged in props/c08.py (a symbol's size is no figure of the trace; the "
         "Coq model has no size); "
-        "--diff is exercised with the default policy/key only; rows of equal |difference| are compared as a set; the "
-        "sign of a time difference is judged (minus = decrease)",
+        "--diff OTHER: row order modelled and judged for every policy / sort column / key list (percentages as exact "
+        "fractions: the percent runs use data below 2^26 ns where the code's double comparison is the same order); "
+        "printed cells modelled for the default policy, judged for the percent policy; the sign of a time difference "
+        "is judged (minus = decrease)",
         "LOST markers with whole calls dropped (kind `marked`) are judged by the checkers against the forest of the "
         "surviving records; LOST markers with unbalanced drops, EXIT at stack 0 and max_stack overflow are compared "
         "with the model only; data "
